@@ -46,12 +46,12 @@ def build_body(atoms, name):
     return G.sanitize_verbatim(body, name)
 
 
-def opaque_check(src, name, body, skip, case, outside_hid):
+def opaque_check(src, name, body, skip, case, outside_hid, also=None):
     o = T.outcome(src, 0, skip_envs=skip)
     if o[0] != 'ok':
         raise H.Violation('C11:parse:%s' % o[1], case, 'a verbatim-like body caused %s' % (o[2] if o[0] == 'leak' else o[1],))
     soup = o[1]
-    if str(soup) != src:
+    if str(soup) != src and str(soup) != also:
         raise H.Violation('C11:roundtrip', case, 'serialises to %r' % str(soup)[:300])
     env = soup.find(name)
     if env is None:
@@ -81,23 +81,27 @@ def rename(c, old, new):
     return c
 
 
-def check_hostile(atoms, name, wrapper, sub='hostile'):
+OPENER_SEPS = ['', '', '', '', ' ', '\n', '\t', '  ']     # blanks between \\begin and {name} (dropped on output: C08)
+
+
+def check_hostile(atoms, name, wrapper, sub='hostile', sep=''):
     body = build_body(atoms, name)
     pre, suf = wrapper
     if ('{%s}' % name) in pre:
         pre, suf = '', ''       # the wrapper itself would become opaque under this name
-    src = pre + '\\begin{%s}' % name + body + '\\end{%s}' % name + suf
+    src = pre + '\\begin' + sep + '{%s}' % name + body + '\\end{%s}' % name + suf
+    nosep = pre + '\\begin{%s}' % name + body + '\\end{%s}' % name + suf
     builtin = name in BUILTIN
     skip = () if builtin else (name,)
-    case = {'src': src, 'sub': sub, 'name': name, 'skip_envs': list(skip), 'body': body,
+    case = {'src': src, 'sub': sub, 'name': name, 'skip_envs': list(skip), 'body': body, 'also': nosep,
             'outside_hid': (pre + suf).count('\\hid')}
-    soup = opaque_check(src, name, body, skip, case, case['outside_hid'])
+    soup = opaque_check(src, name, body, skip, case, case['outside_hid'], also=nosep)
     if not builtin:
         # differential: a user-supplied name behaves exactly like a built-in one
         alt = 'verbatim'
         body2 = build_body(atoms, alt)
         if body2.replace(alt, name) == body or True:
-            src2 = pre + '\\begin{%s}' % alt + body + '\\end{%s}' % alt + suf
+            src2 = pre + '\\begin' + sep + '{%s}' % alt + body + '\\end{%s}' % alt + suf
             if ('\\end{%s}' % alt) not in body:
                 o2 = T.outcome(src2, 0)
                 if o2[0] != 'ok':
@@ -128,6 +132,24 @@ def check_fragment(nodes, name, sub='fragment'):
     want = G.canon(doc)
     if got != want:
         raise H.Violation('C11:fragment-unskipped:tree', case, O.first_diff(got, want) or '')
+    # a starred / unstarred look-alike of the listed name is NOT listed: parsed normally even with the option
+    la = name[:-1] if name.endswith('*') else name + '*'
+    if la in BUILTIN:
+        la = name + '*'
+    env.name = la
+    src_la = G.render(doc)
+    want_la = G.canon(doc)
+    env.name = name
+    G.render(doc)
+    o = T.outcome(src_la, 0, skip_envs=(name,))
+    if ('{%s}' % name) in src_la:
+        labels.append('fragment:lookalike-not-judged(the listed name occurs inside)')
+    elif o[0] != 'ok':
+        raise H.Violation('C11:lookalike-name:parse:%s' % o[1], dict(case, src=src_la, lookalike=la),
+                          'environment %r is not listed (only %r is) and its well-formed body must parse' % (la, name))
+    elif O.canon_tree(o[1], skip=(name,)) != want_la:
+        got = O.canon_tree(o[1], skip=(name,))
+        raise H.Violation('C11:lookalike-name:tree', dict(case, src=src_la, lookalike=la), O.first_diff(got, want_la) or '')
     # with the option: opaque (when the side conditions hold for this body)
     if body.endswith('\\') or '%' in body.rsplit('\n', 1)[-1] or G.ATTACH_RE.match(body) or ('\\end{%s}' % name) in body:
         labels.append('fragment:side-condition-fails(not judged opaque)')
@@ -160,13 +182,14 @@ def shard_hostile(ctx, shard):
     from hypothesis import strategies as st
     res = H.Result()
     strat = st.tuples(st.lists(st.sampled_from(ATOMS), min_size=0, max_size=8),
-                      st.sampled_from(BUILTIN + USER), st.sampled_from(WRAPPERS))
+                      st.sampled_from(BUILTIN + USER), st.sampled_from(WRAPPERS), st.sampled_from(OPENER_SEPS))
 
     def prop(c):
-        atoms, name, wrapper = c
-        case = check_hostile(atoms, name, wrapper)
+        atoms, name, wrapper, sep = c
+        case = check_hostile(atoms, name, wrapper, sep=sep)
         res.case((case['src'], name), nontrivial(case['body']), sample={'src': case['src'], 'skip_envs': case['skip_envs']},
-                 classes=['name:' + ('builtin' if name in BUILTIN else 'user'), 'wrapper-depth:%d' % wrapper[0].count('\\begin')])
+                 classes=['name:' + ('builtin' if name in BUILTIN else 'user'), 'wrapper-depth:%d' % wrapper[0].count('\\begin'),
+                          'opener:' + ('spaced' if sep else 'tight')])
 
     H.hyp_search(strat, prop, n, ctx.seed * 100 + idx, res, known=ctx.known)
     return res
@@ -177,7 +200,7 @@ def shard_fragments(ctx, shard):
     H.import_repo()
     from hypothesis import strategies as st
     res = H.Result()
-    strat = st.tuples(G.wfdoc('small'), st.sampled_from(['mycode', 'code*', 'code2', 'Z']))
+    strat = st.tuples(G.wfdoc('small'), st.sampled_from(['mycode', 'code*', 'code2', 'Z', 'Verbatim*', 'lstlisting*', 'Verbatimx', 'listings']))
 
     def prop(c):
         nodes, name = c
@@ -192,10 +215,18 @@ def shard_fragments(ctx, shard):
 
 def replay(case):
     src, name, body = case['src'], case['name'], case['body']
+    if case.get('lookalike'):
+        o = T.outcome(src, 0, skip_envs=tuple(case['skip_envs']))
+        if o[0] != 'ok':
+            raise H.Violation('C11:lookalike-name:parse:%s' % o[1], case, 'an unlisted look-alike name was not parsed normally')
+        env = o[1].find(case['lookalike'])
+        if env is None or (len(list(env.expr.all)) <= 1 and any(ch in body for ch in '\\{$')):
+            raise H.Violation('C11:lookalike-name:tree', case, 'an unlisted look-alike name was read as verbatim-like')
+        return
     if case.get('sub') == 'fragment':
         opaque_check(src, name, body, tuple(case['skip_envs']), case, case.get('outside_hid', 0))
         return
-    opaque_check(src, name, body, tuple(case['skip_envs']), case, case.get('outside_hid', 0))
+    opaque_check(src, name, body, tuple(case['skip_envs']), case, case.get('outside_hid', 0), also=case.get('also'))
     if case.get('src2'):
         o2 = T.outcome(case['src2'], 0)
         if o2[0] != 'ok':
